@@ -82,6 +82,20 @@ def _gen0(rng, tier):
         trajs = G.insert_empties(trajs, G.empty_positions(rng, len(trajs)))
         yield {'k': rng.choice(['wt', 'paths']), 'trajs': trajs, 'S': S, 'F': F, 'form': rng.choice(['loa', 'loa', 'obj']),
                'alpha': akind + '+empty', 'mal': None}
+    for _ in range(G.budget(6) if tier == 'quick' else 150):       # 40..60 sparsely labelled states, short trajectories, basins of ~20 labels
+        k = rng.randint(40, 60)
+        step = rng.choice([100, 37, 1000])
+        base = rng.choice([0, -2000, 5])
+        labs = [base + step * i for i in range(k)]
+        trajs = [G.traj(rng, labs, rng.randint(60, 100), sticky=0.3) for _ in range(rng.choice([1, 2, 3]))]
+        present = sorted({v for t in trajs for v in t})
+        if len(present) < 30:
+            continue
+        pool = present[:]
+        rng.shuffle(pool)
+        a = rng.randint(14, min(25, len(pool) // 2))
+        yield {'k': rng.choice(['wt', 'paths']), 'trajs': trajs, 'S': pool[:a], 'F': pool[a:a + rng.randint(14, min(25, len(pool) - a))],
+               'form': rng.choice(['loa', 'lol', 'obj']), 'alpha': 'sparse-big-basins', 'mal': None}
     for _ in range(G.budget(10) if tier == 'quick' else 150):      # unusual sizes (many trajectories / frames / states)
         trajs, tag = G.size_classes(rng, sticky=0.7)
         present = sorted({v for t in trajs for v in t})
